@@ -189,6 +189,11 @@ def obligations_bin_semantics(cfg_name, num, low, high, workdir, tlimit):
     # out-of-range values never get an index >= 0
     outr = [AND(g, OR(xl, xh, xn)) for g, v in ix]
     obs.append(("no-index-outside-range", OR(*outr)))
+    # the documented index formula floor(num*(x-low)/(high-low)), evaluated in IEEE double arithmetic (what the
+    # vectorised path computes), clamped to the last bin: the scalar kernel must return exactly that for every in-range x
+    ref = "(fp.roundToIntegral RTN (fp.div RNE (fp.mul RNE %s (fp.sub RNE x %s)) %s))" % (lit(float(num)), lit(low), lit(high - low))
+    refc = "(ite (fp.geq %s %s) %s %s)" % (ref, lit(float(num)), lit(float(num - 1)), ref)
+    obs.append(("index-equals-documented-formula", OR(*[AND(g, B("(not (fp.eq %s %s))" % (v.t, refc))) for g, v in ix])))
     for oname, neg in obs:
         name = "Bin/%s/%s" % (cfg_name, oname)
         if neg is False:
@@ -225,6 +230,10 @@ def _replay_bin_sem(h, oname, x, y):
             bad = x <= y and h.bin(x) > h.bin(y) and h.bin(x) >= 0 and h.bin(y) >= 0
         elif oname == "index-of-low-is-0":
             bad = h.bin(h.low) != 0
+        elif oname == "index-equals-documented-formula":
+            import math as _m
+            want = min(len(h.values) - 1, int(_m.floor(len(h.values) * (x - h.low) / (h.high - h.low))))
+            bad = h.bin(x) != want
         else:
             bad = h.bin(x) >= 0 and (x != x or x < h.low or x >= h.high)
     except Exception as e:  # noqa: BLE001
